@@ -44,9 +44,17 @@ pub trait Oracle {
 pub type OracleFactory = fn(&str, &NodeCfg) -> Box<dyn Oracle>;
 
 pub fn state_key(w: &mut World) -> u64 {
+    // the oracle itself may have stored consumer offsets: the persister returns before the bytes have
+    // landed, so let the queued file operations finish before the directory is read
+    if w.node.sys.is_some() {
+        w.node.quiesce(2);
+    }
     let d = tree_digest(&w.dir);
     let f1 = w.partition_facts(1);
     let s = serde_json::to_vec(&(w.cfg.label(), d, f1)).unwrap();
+    if std::env::var("VX_DUMP_KEYS").is_ok() {
+        eprintln!("STATEKEY {}", String::from_utf8_lossy(&s));
+    }
     hash64(&s)
 }
 
